@@ -28,7 +28,6 @@ import os
 import random
 import shutil
 import tempfile
-import time
 from pathlib import Path
 
 import networkx as nx
@@ -829,11 +828,6 @@ def core4():
     return out
 
 
-def base2(o, r0=AB, r1=AB, **kw0):
-    a0, a1 = atom(0, "Y", r0), atom(o, "X", r1)
-    return a0, a1
-
-
 def features(thorough):
     """one optional feature at a time (and a few combinations) on base links"""
     out = []
@@ -990,7 +984,6 @@ def c02_specs(thorough):
 
 def run_c02(ctx, res):
     import multiprocessing as mp
-    t0 = time.time()
     scratch = tempfile.mkdtemp(prefix="b_links_", dir="/var/tmp")
     try:
         nmax = 5 if ctx.thorough else 4
